@@ -622,7 +622,11 @@ func c14OverflowNeighbours(c *core.Ctx, rng *rand.Rand, dir string, idx int) {
 	base := filepath.Join(dir, "t")
 	os.MkdirAll(filepath.Join(base, "ov"), 0o755)
 	var sends int64
-	fsnotify.VerifSetHooks(&fsnotify.VerifHooks{Send: func(func() bool) { atomic.AddInt64(&sends, 1) }})
+	fsnotify.VerifSetHooks(&fsnotify.VerifHooks{Send: func(func() bool) {
+		if callerIs("sendError") {
+			atomic.AddInt64(&sends, 1) // ERROR sends only
+		}
+	}})
 	defer fsnotify.VerifSetHooks(nil)
 	A, err := fsnotify.NewBufferedWatcher(uint([]int{0, 16}[rng.Intn(2)]))
 	if err != nil {
@@ -639,14 +643,14 @@ func c14OverflowNeighbours(c *core.Ctx, rng *rand.Rand, dir string, idx int) {
 		}
 	}()
 	mq := maxQueued()
-	for k := 0; k < mq+300; k++ {
+	for k := 0; k < mq+cap(A.Events)+2600; k++ {
 		os.WriteFile(filepath.Join(base, "ov", fmt.Sprint("o", k)), nil, 0o644)
 	}
 	close(gate)
 	reached := false
 	for p := 0; p < 150000; p++ {
 		ne := atomic.LoadInt64(&nev)
-		if ne >= int64(mq) && atomic.LoadInt64(&sends) > ne {
+		if _ = ne; atomic.LoadInt64(&sends) > 0 { // a send from sendError has begun
 			reached = true
 			break
 		}
